@@ -9,10 +9,10 @@ Two populations (drawn per run):
 """
 
 from ..actors import InjectedFault
-from ..loop import PAUSE, Cancel, make_lock_type
+from ..loop import PAUSE, CANCEL, make_lock_type
 from ..runner import Outcome
 from ..tools import lib
-from .common import set_interrupts, COMPONENTS_BASE, run_sim, new_sim, finish_outcome
+from .common import set_interrupts, COMPONENTS_BASE, COMPONENTS_AIO, run_sim, new_sim, finish_outcome, pick_backend, make_lock
 
 PID = "C12"
 LEVEL = "exploration"
@@ -29,13 +29,13 @@ RULE = (
     "(sequential) >=1 cached hit and >=1 del or failure; (concurrent) >=2 awaiters overlapped a computation; "
     "distinct = distinct (scenario, interleaving)."
 )
-COMPONENTS = dict(COMPONENTS_BASE, models=["attribute-slot model of cached_property (sequential histories)"])
+COMPONENTS = dict(COMPONENTS_AIO, models=["attribute-slot model of cached_property (sequential histories)"])
 ASSUMPTIONS = [
-    "lock = SimLock stub type instantiated by the library per placeholder",
+    "lock type = SimLock stub (token loop) or asyncio.Lock (backend B), instantiated by the library per placeholder",
     "epoch clauses ignore awaits/getter runs that span a del (DESIGN 9, C12 soundness note)",
 ]
 PROBES = ("arrival_during_compute", "del_during_compute", "cancel_during_compute", "getter_failed",
-          "second_instance", "stale_writeback_nolock", "lock_contended",
+          "second_instance", "held_awaitable_awaited_again", "stale_writeback_nolock", "lock_contended",
           "recompute_after_del")
 
 
@@ -77,7 +77,7 @@ def make_class(sc, sim, runs, lock_type, state):
             rec["status"] = "ok"
             rec["end"] = state.tick()
             return value
-        except Cancel:
+        except CANCEL:
             rec["status"] = "cancelled"
             rec["end"] = state.tick()
             raise
@@ -113,7 +113,7 @@ class TickState:
 def run_seq(sc, st, ctx, out, sim):
     state = TickState()
     runs = []
-    lock_type = make_lock_type(sim) if sc.lock else None
+    lock_type = make_lock(sim) if sc.lock else None
     Holder = make_class(sc, sim, runs, lock_type, state)
     insts = [Holder(0), Holder(1)]
     trace = []
@@ -280,15 +280,17 @@ def gen_conc(ch):
     for _ in range(sc.n):
         ops = []
         for _ in range(ch.between(1, 3)):
-            ops.append((ch.weighted([3, 1]), ch.draw(3)))  # (0 direct await | 1 take, pause, await), pauses after
+            # 0 direct await | 1 take, pause, await | 2 await an awaitable some task took earlier (shared pool)
+            ops.append((ch.weighted([4, 2, 2]), ch.draw(3)))
         progs.append(ops)
     sc.progs = progs
     sc.deleter = None
     if ch.chance(1, 3):
-        sc.deleter = [ch.draw(4) for _ in range(ch.between(1, 2))]  # pauses before each del
+        sc.deleter = [ch.draw(4) for _ in range(ch.between(1, 3))]  # pauses before each del
     sc.fail_first = ch.chance(1, 5)
     sc.cancel = ch.draw(sc.n) if ch.chance(1, 3) else None
     sc.interrupt = ch.draw(4)
+    sc.backend = pick_backend(ch, 1, 4)
     return sc
 
 
@@ -296,13 +298,14 @@ def run_conc(sc, st, ctx, out, sim):
     set_interrupts(sim, (0, 0, 5, 2)[sc.interrupt])
     state = TickState()
     runs = []
-    lock_type = make_lock_type(sim, sc.lock_policy, sc.lock_acq, sc.lock_rel) if sc.lock else None
+    lock_type = make_lock(sim, sc.lock_policy, sc.lock_acq, sc.lock_rel) if sc.lock else None
     Holder = make_class(sc, sim, runs, lock_type, state)
     inst = Holder(0)
     if sc.fail_first:
         state.fail_armed[0] = True
     awaits = []  # [task, start, end, status, value]
     dels = []
+    held = []  # awaitables taken from the instance and kept: any task may await them later, repeatedly
 
     async def awaiter(ti, ops):
         for kind, pauses in ops:
@@ -315,17 +318,27 @@ def run_conc(sc, st, ctx, out, sim):
                         out.probes["arrival_during_compute"] = 1
                     rec[4] = await inst.attr
                 else:
-                    # the access is the moment of taking the awaitable, not of awaiting it
-                    rec[1] = state.tick()
-                    aw = inst.attr
-                    await sim.suspend(PAUSE, None, "awaiter")
+                    if kind == 1 or not held:
+                        t_take = state.tick()
+                        aw = inst.attr
+                        held.append((aw, t_take))
+                        await sim.suspend(PAUSE, None, "awaiter")
+                    else:
+                        aw, t_take = held[pauses % len(held)]
+                        out.probes["held_awaitable_awaited_again"] = 1
+                    if type(aw).__name__ == "AwaitableValue":
+                        # a finished value was taken: the access happened when it was taken
+                        rec[1] = t_take
+                    else:
+                        # a placeholder re-evaluates the instance when it is awaited: that is the access
+                        rec[1] = state.tick()
                     if any(r["status"] == "running" for r in runs):
                         out.probes["arrival_during_compute"] = 1
                     rec[4] = await aw
                 rec[3] = "ok"
             except InjectedFault:
                 rec[3] = "fault"
-            except Cancel:
+            except CANCEL:
                 rec[3] = "cancelled"
                 rec[2] = state.tick()
                 raise
@@ -365,7 +378,7 @@ def run_conc(sc, st, ctx, out, sim):
         return sum(1 for d in dels if d < t)
 
     def describe():
-        return {"mode": "concurrent", "lock": sc.lock, "lock_policy": [sc.lock_policy, sc.lock_acq, sc.lock_rel],
+        return {"mode": "concurrent", "backend": sc.backend, "lock": sc.lock, "lock_policy": [sc.lock_policy, sc.lock_acq, sc.lock_rel],
                 "getter_suspensions": sc.gsusp, "programs": sc.progs, "deleter": sc.deleter,
                 "fail_first": sc.fail_first,
                 "cancel": {"task": sc.cancel, "fired_at": sim.cancel_fired_at} if sc.cancel is not None else None,
@@ -407,6 +420,17 @@ def run_conc(sc, st, ctx, out, sim):
                         out.violate("C12.two_values_in_one_epoch", sig, dict(describe(), epoch=e))
                         break
                     vals[e] = a[4]
+            for a in awaits:
+                if a[3] != "ok":
+                    continue
+                before = [d for d in dels if d < a[1]]
+                if not before:
+                    continue
+                run = next((r for r in runs if r["status"] == "ok" and r["value"] is a[4]), None)
+                if run is not None and run["start"] < before[-1]:
+                    out.violate("C12.value_from_run_started_before_deletion", sig,
+                                dict(describe(), access_tick=a[1], del_tick=before[-1], run_start=run["start"]))
+                    break
             for lk in sim.locks:
                 if lk.owner is not None or lk.waiters:
                     out.violate("C12.lock_not_free_at_quiescence", sig, describe())
@@ -451,7 +475,7 @@ def run_conc(sc, st, ctx, out, sim):
         if any(r["start"] > dels[0] for r in runs):
             out.probes["recompute_after_del"] = 1
     out.nontrivial = bool(out.probes.get("arrival_during_compute"))
-    out.shape = ("conc", sc.lock, tuple(tuple(o) for ops in sc.progs for o in ops), tuple(sc.deleter or ()),
+    out.shape = ("conc", sc.backend, sc.lock, tuple(tuple(o) for ops in sc.progs for o in ops), tuple(sc.deleter or ()),
                  sc.fail_first, sc.cancel, hash(tuple(sim.trace)))
     if ctx.want_sample:
         out.sample = describe()
@@ -462,12 +486,13 @@ def run_conc(sc, st, ctx, out, sim):
 def execute(st, ctx):
     out = Outcome()
     ch = st.scenario
-    sim = new_sim(st, interrupts=False)
     if ch.chance(2, 3):
         sc = gen_conc(ch)
+        sim = new_sim(st, interrupts=False, backend=sc.backend)
         run_conc(sc, st, ctx, out, sim)
     else:
         sc = gen_seq(ch)
+        sim = new_sim(st, interrupts=False)
         run_seq(sc, st, ctx, out, sim)
     return finish_outcome(out, st, sim, ctx)
 
